@@ -199,6 +199,9 @@ def job_sums(pair, use_static):
         pb0 = run(wb, v, use_static=False)[2]
         sb0 = _sum_modes(pb0)
         nm = len(pa)
+        # with use_static=False zero-frequency modes are switched off; the static term is isolated on the region where every mode is switched on
+        fr = run(wa, v, use_static=False)[0]
+        A = A + [(Q.of(f) > Fr(1, 10 ** 10)).c for f in fr.values()]
         for i, cn in enumerate(COMP):
             results.append(discharge(Obligation('static bookkeeping of %s [%s]: modal sum - non-modal == (num_modes-1) * static term' % (wa, cn),
                                                 eq_goal(sa[i] - sb[i], (nm - 1) * (sb[i] - sb0[i])), A,
